@@ -799,6 +799,9 @@ pub fn gen_reg_world(rng: &mut Rng, cfg: &RegCfg) -> RegWorld {
               // an attribute type that does not fit the target: an error entry whichever way the module is learnt about
               let t = *pick(rng, &["json", "stylesheet", "text"]);
               items.push(Item { form: Form::With(t.into()), text: rel });
+            } else if other.ends_with(".wasm") && rng.chance(1, 2) {
+              // a source-phase import: the WebAssembly file is an asset then, whichever way it is learnt about
+              items.push(Item { form: Form::SourcePhase, text: rel });
             } else if other.ends_with(".d.ts") && path.ends_with(".js") {
               items.push(Item { form: Form::SelfTypes, text: rel });
             } else if other.ends_with(".d.ts") && rng.chance(1, 2) {
